@@ -25,6 +25,8 @@ pub struct Flags {
     pub faults: bool,
     /// execute only (for runs under Miri, where the interpreter is the judge): no observations are serialised
     pub light: bool,
+    /// print the test about to run on stderr (used to locate a crash of the process)
+    pub progress: bool,
 }
 
 /// output that rotates to a new file at test boundaries (`<prefix>.<n>.ndjson`)
@@ -193,6 +195,9 @@ impl<'a, K: KeyT, S: Sut<K>> Runner<'a, K, S> {
 
     /// apply one op, returning the event record (without obs)
     fn call(&mut self, c: &mut S, op: &Value) -> (Value, bool) {
+        if self.fl.progress {
+            eprintln!("PROGRESS {} {}", self.sid, op);
+        }
         let mut h: Hold<K> = Hold::new();
         let d0 = track::drops_len();
         let _ = track::cb_take();
